@@ -1317,7 +1317,11 @@ class World:
                 self._judge_path_len(idx, q, pr, oc, *DEFAULT_TOL, tolerant)
             else:
                 tw = outcome(lambda: T().length(T0, T1))
-                self.compare(idx, q, oc, tw, tolerant, atol=self._scale_atol(pr) if tolerant else 0.0)
+                if tolerant and (self._near_boundary(pr, T0) or self._near_boundary(pr, T1)):
+                    # (length(T0, T1) is not continuous in T across a joint when T1 < T0)
+                    self.probe("inconclusive_boundary_query_on_rounding_tainted_path")
+                else:
+                    self.compare(idx, q, oc, tw, tolerant, atol=self._scale_atol(pr) if tolerant else 0.0)
             if oc[0] != "i":
                 self._mark_path_tols(pr, *DEFAULT_TOL)
             warmed = True
